@@ -42,6 +42,11 @@ pub trait Runtime: Sync {
     /// Releases `mutex`, blocks until notified, re-acquires `mutex`.
     fn cond_wait(&self, cv: usize, mutex: usize);
     fn cond_notify_all(&self, cv: usize);
+    /// Wakes one waiter of `cv` (which one is the runtime's choice). The
+    /// default wakes all of them, which a condition variable may always do.
+    fn cond_notify_one(&self, cv: usize) {
+        self.cond_notify_all(cv)
+    }
     fn yield_now(&self);
     fn sleep(&self, dur: Duration);
     /// Head of an unbounded wait loop; `site` identifies the loop.
@@ -496,6 +501,16 @@ pub mod pl {
                 Some(r) => {
                     r.cond_notify_all(self.addr());
                     0
+                }
+            }
+        }
+
+        pub fn notify_one(&self) -> bool {
+            match rt() {
+                None => self.inner.notify_one(),
+                Some(r) => {
+                    r.cond_notify_one(self.addr());
+                    false
                 }
             }
         }
